@@ -15,7 +15,7 @@ for every key (run-time values); fairness of the random start.
 import ast
 
 from ..model import self_attr, unparse, walk_body_shallow
-from .util import at, const_value, expand, module_const, call_name, call_recv, calls_in, need, node_assign_value, norm, where
+from .util import reaching_defs, at, const_value, expand, module_const, call_name, call_recv, calls_in, need, node_assign_value, norm, where
 
 TECHNIQUE = "bit-width abstract interpretation of pure_murmur2, constant-table agreement, purity/effect analysis, " \
             "single-advance path check"
@@ -296,13 +296,30 @@ def run(ctx):
     np_ = ctx.func("producer:Producer._next_partition")
     cn = ctx.cfg(np_)
     fn = ctx.facts(np_, kill_on_suspend=False)
-    mk = [n for n in cn.nodes if n.kind == "stmt" and isinstance(n.stmt, ast.Assign) and norm(n.stmt.targets[0]).startswith("self.partitioners[")]
-    use = [c for c in calls_in(np_, "partition")]
-    pl = [x for x in walk_body_shallow(np_.body) if isinstance(x, ast.Assign) and norm(x.value) == "self.client.topic_partitions[%s]" % np_.params[1]]
-    ndefs = len([x for x in walk_body_shallow(np_.body) if isinstance(x, (ast.Assign, ast.AugAssign)) and pl and any(
-        unparse(t) == unparse(pl[0].targets[0]) for t in (x.targets if isinstance(x, ast.Assign) else [x.target]))])
-    ok = len(mk) == 1 and ndefs == 1 and ("%s not in self.partitioners" % np_.params[1], True) in fn[mk[0].id] and len(use) == 1 and bool(pl) and \
-        norm(use[0].func.value) == "self.partitioners[%s]" % np_.params[1] and norm(use[0].args[1]) == unparse(pl[0].targets[0])
+    tp = np_.params[1]
+    slot = "self.partitioners[%s]" % tp
+    mk = [n for n in cn.nodes if n.kind == "stmt" and isinstance(n.stmt, ast.Assign) and norm(n.stmt.targets[0]) == slot]
+    ctors = [(n, c) for n in cn.nodes for c in n.calls() if norm(c.func) == "self.partitioner_class"]
+    use = [(n, c) for n in cn.nodes for c in n.calls() if call_name(c) == "partition"]
+    plist = "self.client.topic_partitions[%s]" % tp
+
+    def flows_from(nid, e, wanted):
+        """every value that can reach expression e at node nid is one of `wanted` (texts), following local definitions"""
+        if norm(e) in wanted:
+            return True
+        if isinstance(e, ast.Name):
+            ds = reaching_defs(cn, nid, e.id)
+            vals = [cn.nodes[d].stmt.value for d in ds if isinstance(cn.nodes[d].stmt, ast.Assign) and len(cn.nodes[d].stmt.targets) == 1]
+            return bool(ds) and len(vals) == len(ds) and all(flows_from(d, v, wanted) for d, v in zip(ds, vals))
+        return False
+
+    ok = len(mk) == 1 and len(ctors) == 1 and len(use) == 1
+    if ok:
+        ctor_text = norm(ctors[0][1])
+        ok = ("%s not in self.partitioners" % tp, True) in fn[ctors[0][0].id] and ("%s not in self.partitioners" % tp, True) in fn[mk[0].id] and \
+            flows_from(mk[0].id, mk[0].stmt.value, {ctor_text}) and norm(ctors[0][1].args[0]) == tp and \
+            flows_from(ctors[0][0].id, ctors[0][1].args[1], {plist}) and \
+            flows_from(use[0][0].id, use[0][1].func.value, {slot, ctor_text}) and flows_from(use[0][0].id, use[0][1].args[1], {plist})
     r.check(ok, "%s#one-partitioner-per-topic" % np_.qname, "partitioner is re-created per call or not given the current partition list", where(np_, np_.node),
             "round robin restarts at every send: all messages go to one partition")
 
